@@ -218,6 +218,17 @@ class Xform:
             if isinstance(op, (ast.Is, ast.IsNot)) and isinstance(b, ast.Constant) and b.value is None:
                 r = self.expr(a, env) == NONE
                 return r if isinstance(op, ast.Is) else not r
+            if isinstance(op, (ast.Is, ast.IsNot)):
+                # identity with a module-level sentinel (`default is not _UNSET`)
+                from ..model import Sentinel
+
+                va, vb = self.expr(a, env), self.expr(b, env)
+                sa_ = va[0] == "const" and isinstance(va[1], Sentinel)
+                sb_ = vb[0] == "const" and isinstance(vb[1], Sentinel)
+                if sa_ or sb_:
+                    r = sa_ and sb_ and va[1] == vb[1]
+                    return r if isinstance(op, ast.Is) else not r
+                raise AnalysisError(f"dictxform: identity test `{norm(e)}` between values that are not sentinels")
             if isinstance(op, (ast.Eq, ast.NotEq)):
                 va, vb = self.expr(a, env), self.expr(b, env)
                 if va[0] == "in" or vb[0] == "in":
